@@ -13,6 +13,7 @@ Sites == {"literal", "shl", "shl-lhs", "shr", "div", "div-lhs", "mod", "mul", "a
           "seg-target-low", "seg-target-high", "loop-nested",
           "macro-recursion-untaken", "macro-mutual-untaken",
           "mixed-types", "mixed-types-insn", "macro-value", "seg-start-string",
+          "segblock-untaken", "segblock-untaken-own",          \* an untaken branch inside a `.segment' block inside an untaken branch / uninvoked macro, and code after it
           "deep-braces", "deep-parens", "long-chain", "nested-calls", "unclosed-parens"}      \* size, not value: recursion and backtracking          \* operands no pass can ever make sense of      \* recursion only through a branch that is not taken (the analysis mode visits it)
 NumericSites == {"literal", "shl", "shl-lhs", "shr", "div", "div-lhs", "mod", "mul", "add", "sub", "neg",
                  "align", "loop", "setpc", "seg-start", "seg-pc", "bank-size", "bank-fill", "byte", "branch", "loop-nested"}
